@@ -422,6 +422,14 @@ func init() {
 			}
 			g.emit("join %s %d", showU64s(vs), w)
 		}
+		// the int32 boundary of the total bit length (thorough tier, and whenever the package's source changed)
+		if g.thorough() {
+			for _, nw := range [][2]int{{1<<26 - 1, 32}, {1<<25 - 1, 64}, {1<<27 - 3, 16}, {1 << 20, 64}} {
+				g.emit("joinprobe %d %d %d", nw[0], nw[1], g.r.Int63())
+			}
+		}
+		g.emit("joinprobe 100000 32 7")
+		g.emit("joinprobe 70001 8 9")
 		big := g.largeWords(1100, 1)
 		for _, ft := range [][2]int{{0, 70400}, {63, 70000}, {65535, 65537}, {65536, 70400}, {1, 70399}} {
 			g.emit("slice %s %d %d", showU64s(big), ft[0], ft[1])
